@@ -7,9 +7,15 @@ var schedAssume = []string{
 }
 
 var plans = map[string]PropPlan{
+	"C09": {
+		Quick:     []Plan{{Scenario: "conn.lifecycle", PB: 2, DB: 0}},
+		Thorough:  []Plan{{Scenario: "conn.lifecycle", PB: 3, DB: 0}},
+		QuickSecs: 90, ThoroughSecs: 900,
+		Assumptions: schedAssume,
+	},
 	"C17": {
-		Quick:    []Plan{{Scenario: "mux.shardq", PB: 2, DB: 1}},
-		Thorough: []Plan{{Scenario: "mux.shardq", PB: 3, DB: 2}},
+		Quick:     []Plan{{Scenario: "mux.shardq", PB: 2, DB: 1}},
+		Thorough:  []Plan{{Scenario: "mux.shardq", PB: 3, DB: 2}},
 		QuickSecs: 60, ThoroughSecs: 600,
 		Assumptions: schedAssume,
 	},
